@@ -222,18 +222,20 @@ theorem toG_wf (c : Cand) : WF c.toG := by
   rfl
 
 theorem substParams_length (targs : List TArg) : ∀ (ps : List TParam) (out : List Param),
-    substParams targs ps = .ok out → out.length = ps.length
+    substParams targs ps = .ok (some out) → out.length = ps.length
   | [], out, h => by
-    simp only [substParams, Except.ok.injEq] at h
+    simp only [substParams, Except.ok.injEq, Option.some.injEq] at h
     subst h; rfl
   | p :: ps, out, h => by
     simp only [substParams] at h
     split at h
     · simp at h
+    · simp at h
     · split at h
       · simp at h
+      · simp at h
       · rename_i rest hrest
-        simp only [Except.ok.injEq] at h
+        simp only [Except.ok.injEq, Option.some.injEq] at h
         rw [← h]
         simp only [List.length_cons, substParams_length targs ps rest hrest]
 
@@ -243,19 +245,11 @@ theorem tcand_wf (explicit : List TArg) (c : TCand) : WF (c.toG explicit) := by
   simp only [TCand.toG, TCand.inst] at h ⊢
   split at h
   · split at h
-    · split at h
-      · simp at h
-      · rename_i out hout
-        simp only [Except.ok.injEq, Option.some.injEq] at h
-        rw [← h]; exact substParams_length _ _ _ hout
+    · exact substParams_length _ _ _ h
     · simp at h
   · split at h
     · simp at h
-    · split at h
-      · simp at h
-      · rename_i out hout
-        simp only [Except.ok.injEq, Option.some.injEq] at h
-        rw [← h]; exact substParams_length _ _ _ hout
+    · exact substParams_length _ _ _ h
 
 /-- an ordinary function resolves as in the model of the first round -/
 theorem rankG_toG (args : List ETy) (c : Cand) : rankG args c.toG = rankCand args c := by
@@ -349,77 +343,114 @@ theorem tvar_in_param_matches_exactly (id : Nat) (a : ETy) (h : NonLiteral a.ty.
     substParams, substPTy, normalizeTy_nonLiteral a.ty h, zipRanks, Param.ety, InputModifier.needsLvalue, hc, hr]
 
 
-theorem kindsAgree_get : ∀ (ks : List TKind) (ts : List TArg), kindsAgree ks ts = true →
-    ∀ k : Nat, ks[k]? = some TKind.type → ∃ t, ts[k]? = some (TArg.type t)
-  | [], [], _, k, hk => by simp at hk
-  | [], _ :: _, h, _, _ => by simp [kindsAgree] at h
-  | .type :: ks, [], h, _, _ => by simp [kindsAgree] at h
-  | .value :: ks, [], h, _, _ => by simp [kindsAgree] at h
-  | .type :: ks, .type t :: ts, h, k, hk => by
-    simp only [kindsAgree] at h
-    cases k with
-    | zero => exact ⟨t, rfl⟩
-    | succ k => simpa using kindsAgree_get ks ts h k (by simpa using hk)
-  | .type :: ks, .const :: ts, h, _, _ => by simp [kindsAgree] at h
-  | .value :: ks, .type _ :: ts, h, _, _ => by simp [kindsAgree] at h
-  | .value :: ks, .const :: ts, h, k, hk => by
-    simp only [kindsAgree] at h
-    cases k with
-    | zero => simp at hk
-    | succ k => simpa using kindsAgree_get ks ts h k (by simpa using hk)
+theorem gatherArgs_length (params : List TParam) (explicit : List TArg) (args : List ETy) :
+    ∀ (ks : List TKind) (i : Nat) (ts : List TArg), gatherArgs params explicit args i ks = some ts → ts.length = ks.length
+  | [], _, ts, h => by
+    simp only [gatherArgs, Option.some.injEq] at h
+    subst h; rfl
+  | k :: ks, i, ts, h => by
+    simp only [gatherArgs] at h
+    split at h
+    · simp at h
+    · split at h
+      · simp at h
+      · rename_i rest hrest
+        simp only [Option.some.injEq] at h
+        rw [← h]
+        simp only [List.length_cons, gatherArgs_length params explicit args ks (i + 1) rest hrest]
 
-theorem substParams_simple (kinds : List TKind) (ts : List TArg)
-    (hk : ∀ k : Nat, kinds[k]? = some TKind.type → ∃ t, ts[k]? = some (TArg.type t)) :
-    ∀ (ps : List TParam), (∀ p ∈ ps, match p.pat with | .conc _ => True | .tvar k => kinds[k]? = some TKind.type | _ => False) →
-      ∃ out, substParams ts ps = .ok out
-  | [], _ => ⟨[], rfl⟩
+theorem targs_length {c : TCand} {explicit : List TArg} {args : List ETy} {ts : List TArg}
+    (h : c.targs explicit args = some ts) : ts.length = c.tkinds.length := by
+  unfold TCand.targs at h
+  split at h
+  · simp at h
+  · split at h
+    · simp at h
+    · rename_i ts' hts
+      split at h
+      · simp only [Option.some.injEq] at h
+        rw [← h]; exact gatherArgs_length _ _ _ _ _ _ hts
+      · simp at h
+
+/-- with every mentioned template parameter declared, substituting into one parameter type reaches no panic site -/
+theorem substPTy_scoped (ts : List TArg) (pat : PTy)
+    (h : match pat with
+      | .conc _ => True
+      | .tvar k => k < ts.length
+      | .tvec k _ => k < ts.length
+      | .tmat k _ _ => k < ts.length
+      | .tarr _ _ => False) :
+    ∃ r, substPTy ts pat = .ok r := by
+  cases pat with
+  | conc t => exact ⟨_, rfl⟩
+  | tvar k =>
+    simp only at h
+    simp only [substPTy, List.getElem?_eq_getElem h]
+    cases ts[k] <;> exact ⟨_, rfl⟩
+  | tvec k n =>
+    simp only at h
+    simp only [substPTy, List.getElem?_eq_getElem h]
+    cases ts[k] with
+    | const => exact ⟨_, rfl⟩
+    | type t => simp only; cases isPlainScalar t <;> exact ⟨_, rfl⟩
+  | tmat k x y =>
+    simp only at h
+    simp only [substPTy, List.getElem?_eq_getElem h]
+    cases ts[k] with
+    | const => exact ⟨_, rfl⟩
+    | type t => simp only; cases isPlainScalar t <;> exact ⟨_, rfl⟩
+  | tarr k n => exact absurd h (by simp)
+
+theorem substParams_scoped (ts : List TArg) :
+    ∀ (ps : List TParam), (∀ p ∈ ps, match p.pat with
+      | .conc _ => True
+      | .tvar k => k < ts.length
+      | .tvec k _ => k < ts.length
+      | .tmat k _ _ => k < ts.length
+      | .tarr _ _ => False) →
+      ∃ r, substParams ts ps = .ok r
+  | [], _ => ⟨_, rfl⟩
   | p :: ps, h => by
-    obtain ⟨rest, hrest⟩ := substParams_simple kinds ts hk ps (fun q hq => h q (List.mem_cons_of_mem _ hq))
-    have hp := h p List.mem_cons_self
-    simp only [substParams]
-    cases hpat : p.pat with
-    | conc t => simp [substPTy, hrest]
-    | tvar k =>
-      rw [hpat] at hp
-      obtain ⟨t, ht⟩ := hk k (by simpa using hp)
-      simp [substPTy, ht, hrest]
-    | tvec k n => rw [hpat] at hp; exact absurd hp (by simp)
-    | tmat k x y => rw [hpat] at hp; exact absurd hp (by simp)
-    | tarr k n => rw [hpat] at hp; exact absurd hp (by simp)
+    obtain ⟨rest, hrest⟩ := substParams_scoped ts ps (fun q hq => h q (List.mem_cons_of_mem _ hq))
+    obtain ⟨r, hr⟩ := substPTy_scoped ts p.pat (h p List.mem_cons_self)
+    simp only [substParams, hr, hrest]
+    cases r with
+    | none => exact ⟨_, rfl⟩
+    | some t => cases rest <;> exact ⟨_, rfl⟩
 
-theorem inst_simple (c : TCand) (h : SimpleTemplate c) (explicit : List TArg) (args : List ETy) :
+theorem inst_scoped (c : TCand) (h : ScopedTemplate c) (explicit : List TArg) (args : List ETy) :
     ∃ r, c.inst explicit args = .ok r := by
   unfold TCand.inst
   by_cases he : c.tkinds.isEmpty = true
   · rw [if_pos he]
     by_cases hx : explicit.isEmpty = true
     · rw [if_pos hx]
-      obtain ⟨out, hout⟩ := substParams_simple c.tkinds [] (fun k hk => by
-        simp [List.isEmpty_iff.mp he] at hk) c.params h
-      rw [hout]; exact ⟨_, rfl⟩
+      apply substParams_scoped
+      intro p hp
+      have := h p hp
+      simp only [List.isEmpty_iff.mp he, List.length_nil] at this
+      exact this
     · rw [if_neg hx]; exact ⟨_, rfl⟩
   · rw [if_neg he]
     cases ht : c.targs explicit args with
     | none => exact ⟨_, rfl⟩
     | some ts =>
-      have hka : kindsAgree c.tkinds ts = true := by
-        unfold TCand.targs at ht
-        split at ht
-        · simp at ht
-        · split at ht
-          · simp at ht
-          · split at ht
-            · rename_i hk; simp only [Option.some.injEq] at ht; rw [← ht]; exact hk
-            · simp at ht
-      obtain ⟨out, hout⟩ := substParams_simple c.tkinds ts (kindsAgree_get _ _ hka) c.params h
-      simp only [hout]; exact ⟨_, rfl⟩
+      simp only
+      apply substParams_scoped
+      intro p hp
+      have := h p hp
+      rw [targs_length ht]
+      exact this
 
-theorem simple_template_never_panics (c : TCand) (h : SimpleTemplate c) (explicit : List TArg) (args : List ETy) :
+/-- **no panic site is left in the template half** (since /repo 5dca4fc): a declared overload — ordinary function or
+    function template with `T`, `vector<T, n>`, `matrix<T, x, y>` parameters, any template parameter kinds, any explicit
+    template arguments, any call — is ranked or not viable, never a panic -/
+theorem scoped_template_never_panics (c : TCand) (h : ScopedTemplate c) (explicit : List TArg) (args : List ETy) :
     (rankG args (c.toG explicit)).isPanic = false := by
   unfold rankG
   split
   · simp only [TCand.toG]
-    obtain ⟨r, hr⟩ := inst_simple c h explicit args
+    obtain ⟨r, hr⟩ := inst_scoped c h explicit args
     rw [hr]
     cases r with
     | none => rfl
